@@ -217,7 +217,13 @@ def run(ctx, spec):
         hooks = {}
         for _ in range(rng.randint(0, 8)):
             hooks.setdefault(str(rng.randint(0, len(lines))), []).extend(gen_commands(rng, st, 1))
-        script = {'lines': lines, 'hooks': hooks, 'after': gen_commands(rng, st, rng.randint(6, 14)),
+        after = gen_commands(rng, st, rng.randint(6, 14))
+        if rng.random() < 0.35:
+            # a long matcher (hundreds of escape sequences once it is coloured)
+            many = [rng.choice(ms) for _ in range(rng.randint(70, 160))]
+            many = [m for m in many if m not in ('*', '!') and '!' not in m and ',' not in m and ':' not in m]
+            after.insert(rng.randrange(len(after) + 1), rng.choice(['filter ', 'breakpoint ', 'list ', 'matcher ']) + ', '.join(many))
+        script = {'lines': lines, 'hooks': hooks, 'after': after,
                   'filter': rng.choice([None, None, rng.choice(ms)]), 'stop': rng.choice([None, rng.choice(ms)]),
                   'show_unprocessed': rng.random() < 0.8}
         for key in ('filter', 'stop'):
